@@ -209,6 +209,8 @@ def main(tier, seed):
                  dict(k=4, max_gens=2, max_edits=0, pool="t", sf2=False)]
     # the twins a.txt / d/a.txt (same history-relative path once d has its own history) with every -sf pair
     plans.append(dict(k=3 if tier == "quick" else 4, max_gens=2, max_edits=0, pool="p", only=["a.txt", "d/a.txt"]))
+    # the tree reached through a symbolic link to the root (every path of the command line goes through the link)
+    plans.append(dict(k=2 if tier == "quick" else 3, max_gens=2, max_edits=0, pool="p", spell="symlink"))
     if os.environ.get("VERIF_ONLY_PLAN"):   # (timing aid when tuning bounds)
         plans = [plans[int(os.environ["VERIF_ONLY_PLAN"])]]
     tot = {"states": 0, "transitions": 0}
